@@ -105,6 +105,31 @@ EXTRA = [
   c = step(1)
   return (a, c, d['k'], acc.v)
 '''),
+    ('p:only_later_read_is_inside_closure', '''def f(x, n, b, xs):
+  a = x
+  def doubled():
+    return a * 2
+  if b:
+    a = a + 1
+  a = doubled()
+  c = n
+  def shifted():
+    return c + 100
+  if x == 0:
+    c = c * 3
+  elif x == 1:
+    c = c - 7
+  else:
+    c = c + 0
+  c = shifted()
+  s = 0
+  for i in range(n):
+    if i == 1:
+      a = a + i
+    a = doubled()
+    s = s + a
+  return (a, c, s)
+'''),
     ('p:swap_and_tuple', '''def f(x, n, b, xs):
   a = 0
   c = 1
